@@ -129,15 +129,25 @@ impl<L: Language> MultiPattern<L> {
             if x.is_empty() { continue }
 
             let v: Box<[&str]> = x.split("==").collect();
-            assert_eq!(v.len(), 2);
+            if v.len() != 2 {
+                return Err(ParseError::TokenState(x.to_string()));
+            }
             let var: Pattern<L> = Pattern::parse(v[0])?;
             let rhs: Pattern<L> = Pattern::parse(v[1])?;
-            let Pattern::PVar(v) = var else { panic!("{var} isn't a PVar") };
-            let Pattern::ENode(n, children) = rhs else { panic!("{rhs} isn't an e-node") };
-            let children = children.into_iter().map(|x| {
-                let Pattern::PVar(xx) = x else { panic!("child {x} isn't a PVar") };
-                xx
-            }).collect();
+            let Pattern::PVar(v0) = var else {
+                return Err(ParseError::ParseState(tokenize(v[0])?));
+            };
+            let Pattern::ENode(n, children) = rhs else {
+                return Err(ParseError::ParseState(tokenize(v[1])?));
+            };
+            let mut pvars = Vec::new();
+            for x in children {
+                let Pattern::PVar(xx) = x else {
+                    return Err(ParseError::ParseState(tokenize(v[1])?));
+                };
+                pvars.push(xx);
+            }
+            let (v, children) = (v0, pvars);
             out.push((v, n, children));
         }
         Ok(MultiPattern { pats: out })
@@ -321,7 +331,7 @@ impl<L: Language> std::fmt::Display for MultiPattern<L> {
         for (i, (pv, n, children)) in self.pats.iter().enumerate() {
             let children = children.iter().map(|x| Pattern::PVar(x.clone())).collect();
             let pat = Pattern::ENode(n.clone(), children);
-            write!(f, "{pv} == {pat}")?;
+            write!(f, "?{pv} == {pat}")?;
             if i != self.pats.len()-1 {
                 write!(f, ", ")?;
             }
